@@ -194,7 +194,7 @@ impl Fzn {
 // independent evaluator (standard FlatZinc semantics of the builtins)
 // ------------------------------------------------------------------------------------------------
 
-type Asg = BTreeMap<String, i64>;
+pub type Asg = BTreeMap<String, i64>;
 
 struct Eval<'a> {
     f: &'a Fzn,
@@ -847,12 +847,12 @@ pub fn cases(tier: Tier) -> Vec<Case> {
 // ------------------------------------------------------------------------------------------------
 
 #[derive(Debug, Default)]
-struct Parsed {
-    blocks: Vec<BTreeMap<String, Vec<i64>>>,
-    complete: bool,
-    unsat: bool,
-    unknown: bool,
-    garbage: Vec<String>,
+pub struct Parsed {
+    pub blocks: Vec<BTreeMap<String, Vec<i64>>>,
+    pub complete: bool,
+    pub unsat: bool,
+    pub unknown: bool,
+    pub garbage: Vec<String>,
 }
 
 fn parse_value(s: &str) -> Option<Vec<i64>> {
@@ -875,7 +875,7 @@ fn parse_value(s: &str) -> Option<Vec<i64>> {
     }
 }
 
-fn parse_output(out: &str) -> Parsed {
+pub fn parse_output(out: &str) -> Parsed {
     let mut p = Parsed::default();
     let mut cur: BTreeMap<String, Vec<i64>> = BTreeMap::new();
     for line in out.lines() {
@@ -906,7 +906,7 @@ fn parse_output(out: &str) -> Parsed {
 }
 
 /// Projection of a solution on the output items.
-fn project(f: &Fzn, a: &Asg) -> BTreeMap<String, Vec<i64>> {
+pub fn project(f: &Fzn, a: &Asg) -> BTreeMap<String, Vec<i64>> {
     let mut m = BTreeMap::new();
     for v in &f.vars {
         if v.output {
